@@ -458,7 +458,13 @@ def _read_profiles(c, p, read, known_iso, delta, ctx):
                 ctx.grey += 1
                 continue
             if verdict == "not1" or gp[i] != verdict:
-                ctx.violation("C19:read_profile:%s:%s" % (kind, "expected_%s_got_%s" % (verdict, gp[i])),
+                suffix = ""
+                if kind == "intron" and verdict == 1 and any(b - a + 1 <= delta for a, b in read[1:-1]) and \
+                        any(min(r[1], k[1]) >= max(r[0], k[0]) for r in rf if r not in matches and r[1] < matches[0][0]):
+                    # the known intron overlaps the read intron before a read exon that is not longer than delta, and
+                    # matches the read intron after it
+                    suffix = ":known-intron-overlaps-the-read-intron-before-a-read-exon-not-longer-than-delta"
+                ctx.violation("C19:read_profile:%s:%s%s" % (kind, "expected_%s_got_%s" % (verdict, gp[i]), suffix),
                               {"kind": kind, "known": known, "read_features": rf, "delta": delta, "index": i,
                                "got": gp, "expected_at_index": verdict},
                               ctx.current_case)
@@ -509,7 +515,76 @@ def _split_profiles(c, p, read, blocks, ctx):
             ctx.violation("C19:split_read_profile:read-blocks:" + name,
                           {"blocks": blocks, "read": read, "got": list(prof.read_profile), "expected": er},
                           ctx.current_case)
+        # the definition has no orientation: the mirror image of the input gets the mirror image of the profiles
+        top = max(read[-1][1], blocks[-1][1]) + 1
+        mread = [(top - b, top - a) for a, b in reversed(read)]
+        mblocks = [(top - b, top - a) for a, b in reversed(blocks)]
+        mprof = p.NonOverlappingFeaturesProfileConstructor(mblocks, comparator=cmpf).construct_profile(mread)
+        cnt += 1
+        for side, a_, b_, exp_ in (("known-blocks", list(prof.gene_profile), list(reversed(mprof.gene_profile)), eg),
+                                   ("read-blocks", list(prof.read_profile), list(reversed(mprof.read_profile)), er)):
+            if a_ != b_:
+                cells = [i for i in range(len(a_)) if a_[i] != b_[i]]
+                only_touched = all(exp_[i] is None for i in cells)
+                ctx.violation("C19:split_read_profile:mirror-image-differs:%s:%s%s" % (
+                    side, name, ":feature-touched-below-the-matching-threshold" if only_touched else ""),
+                    {"blocks": blocks, "read": read, "profile": a_, "mirror_image_profile_reversed": b_,
+                     "cells": cells}, ctx.current_case)
     return cnt
+
+
+# ------------------------------------------------------------------------------------------- generated mid-size
+
+@st.composite
+def mid_profiles(draw):
+    """A read and a known chain derived from it: ends moved by up to delta + 2, blocks dropped, tiny blocks (1 base
+    up to a little more than delta) inserted - the corner region of the profile constructors."""
+    delta = draw(st.sampled_from([0, 1, 2, 3, 6]))
+    tiny = st.sampled_from([1, 2, 3, delta, delta + 1, delta + 2, 8, 15, 30])
+    k = draw(st.integers(1, 5))
+    pos = draw(st.integers(1, 20))
+    read = []
+    for _ in range(k):
+        ln = max(1, draw(tiny))
+        read.append((pos, pos + ln - 1))
+        pos += ln + delta + draw(st.sampled_from([1, 2, 3, delta + 1, 10, 25]))
+    known = []
+    for a, b in read:
+        what = draw(st.sampled_from(["keep", "keep", "keep", "move", "move", "drop", "split"]))
+        if what == "drop":
+            continue
+        if what == "move":
+            a += draw(st.integers(-delta - 2, delta + 2))
+            b += draw(st.integers(-delta - 2, delta + 2))
+        if what == "split" and b - a >= 4:
+            m = draw(st.integers(a + 1, b - 2))
+            known.append((a, m))
+            a = m + 2 + draw(st.integers(0, 2))
+        known.append((a, b))
+    if draw(st.booleans()):
+        a = (known[-1][1] if known else pos) + draw(st.integers(2, 30))
+        known.append((a, a + draw(st.integers(0, 20))))
+    out = []
+    for a, b in sorted(known):
+        a = max(a, 1, (out[-1][1] + 2) if out else 1)
+        if b >= a:
+            out.append((a, b))
+    if not out:
+        out = [(read[0][0], read[0][1])]
+    return {"delta": delta, "read": read, "known": out}
+
+
+def eval_mid(case, ctx):
+    c, g, p = C()
+    read = [tuple(x) for x in case["read"]]
+    known = [tuple(x) for x in case["known"]]
+    ctx.current_case = case
+    n = _read_profiles(c, p, read, known, case["delta"], ctx)
+    n += _split_profiles(c, p, read, known, ctx)
+    ctx.cls("mid:delta=%d" % case["delta"])
+    if n and any(b - a + 1 <= case["delta"] + 2 for a, b in read + known):
+        ctx.mark_nontrivial(case)
+        ctx.sample(case, limit=3)
 
 
 # ------------------------------------------------------------------------------------------------ random large
@@ -626,6 +701,7 @@ def stages(tier):
         Stage("split", "enum", eval_split, enumerate=_shard_cases(n=5 if q else 6, kmax=3 if q else 4),
               exhaustive=True),
         Stage("profiles", "enum", eval_profiles, enumerate=_shard_cases(n=6 if q else 7, kmax=3), exhaustive=True),
+        Stage("profiles_mid", "hyp", eval_mid, n=20000 if q else 600000, strategy=mid_profiles),
         Stage("big", "hyp", eval_big, n=3000 if q else 100000, strategy=big_lists),
         # the same generator and oracle driven by libFuzzer (atheris) with coverage feedback from /repo/src
         Stage("fuzz_big", "hypfuzz", eval_big, n=6000 if q else 400000, strategy=big_lists, shards=4 if q else 16),
